@@ -76,6 +76,10 @@ func genNoiseOp(rt *rapid.T, w *chain.World) noiseOp {
 		return noiseOp{Kind: "store", Desc: fmt.Sprintf("store(/%s/%s %x prove=%v h%d)", name, sub, key, prove, hsel), Path: "/store/" + name + "/" + sub, Data: key, Prove: prove, Height: hsel}
 	case "appq":
 		q := rapid.SampledFrom(appQueries).Draw(rt, "appQuery")
+		if rapid.IntRange(0, 3).Draw(rt, "govQuery") == 1 {
+			// the stored upgrade / parameters at a past height (what a node derives its activation schedule from)
+			q = rapid.SampledFrom([]string{"upgrade", "allParams"}).Draw(rt, "govQueryKind")
+		}
 		t := rapid.IntRange(0, 40).Draw(rt, "target")
 		return noiseOp{Kind: "appq", Sub: q, Target: t, Height: hsel, Desc: fmt.Sprintf("appq(%s,t%d,h%d)", q, t, hsel)}
 	case "custom":
